@@ -1096,8 +1096,9 @@ impl<'de> Deserialize<'de> for KmerMinHashBTree {
             current_max = *mins.iter().next_back().unwrap_or(&0);
             (mins, Some(abunds))
         } else {
-            current_max = 0;
-            (tmpsig.mins.into_iter().collect(), None)
+            let mins: BTreeSet<_> = tmpsig.mins.into_iter().collect();
+            current_max = *mins.iter().next_back().unwrap_or(&0);
+            (mins, None)
         };
 
         Ok(KmerMinHashBTree {
@@ -1339,6 +1340,7 @@ impl KmerMinHashBTree {
                 self.abunds = Some(new_abunds)
             }
         }
+        self.current_max = *self.mins.iter().next_back().unwrap_or(&0);
         // Better safe than sorry, but could check in other places to avoid
         // always resetting
         self.reset_md5sum();
@@ -1713,6 +1715,7 @@ impl From<KmerMinHash> for KmerMinHashBTree {
             .abunds
             .map(|abunds| mins.iter().cloned().zip(abunds).collect());
 
+        new_mh.current_max = *mins.iter().next_back().unwrap_or(&0);
         new_mh.mins = mins;
         new_mh.abunds = abunds;
 
